@@ -9,13 +9,10 @@ mod clocksim;
 mod histsim;
 mod host;
 mod known;
-#[cfg(feature = "arc")]
 mod linz;
-#[cfg(feature = "arc")]
 mod locksim;
 mod modsim;
 mod rng;
-#[cfg(feature = "arc")]
 mod sched;
 mod simio;
 mod simlang;
@@ -360,6 +357,33 @@ fn main() {
                     "healing by rewriting a file whose chunk is already in the loader takes effect after clear_module_cache (documented); the generator never breaks a file after it was loaded".into(),
                 ],
                 extra,
+            );
+            finish(&cfg, &res, ev, &args.evidence);
+        }
+        "seqsim" => {
+            let cfg = CampaignConfig {
+                engine: "seqsim",
+                property: "C19",
+                base_seed: args.seed,
+                runs: args.runs.unwrap_or(20_000),
+                max_seconds: args.seconds.unwrap_or(0.0),
+                threads: args.threads,
+                keep_going: args.keep_going,
+                strict: args.strict,
+                digest_file: args.digests.clone(),
+                replay_dir: args.replay_dir.clone(),
+            };
+            let res = campaign::run_campaign(&cfg, |_t| Box::new(locksim::SeqWorker) as Box<dyn Worker>);
+            let ev = campaign::evidence_part(
+                &cfg,
+                &res,
+                &args.tier,
+                "exploration",
+                "container workloads of locksim executed sequentially in two fixed orders; compared with the sequential specification and (by the rc/arc differential) between the two builds",
+                "container operations",
+                components(),
+                vec![],
+                Map::new(),
             );
             finish(&cfg, &res, ev, &args.evidence);
         }
